@@ -412,3 +412,39 @@ theorem reduceRoute_param_order (parent : Security) (m : Method) (rr : RRoute) (
         · cases hr
 
 end Gleece.Serve
+
+/-! ### the validator tag (C05-F2) -/
+namespace Gleece.Serve
+open Gleece.Router
+
+def escChar (c : Char) : List Char :=
+  if c = '&' then "&amp;".toList else if c = '\'' then "&apos;".toList else if c = '<' then "&lt;".toList
+  else if c = '>' then "&gt;".toList else if c = '"' then "&quot;".toList else [c]
+
+def plainChar (c : Char) : Bool := c != '&' && c != '\'' && c != '<' && c != '>' && c != '"'
+
+theorem flatMap_esc_id (l : List Char) (h : l.all plainChar = true) : l.flatMap escChar = l := by
+  induction l with
+  | nil => rfl
+  | cons c t ih =>
+    simp only [List.all_cons, Bool.and_eq_true] at h
+    have hc : escChar c = [c] := by
+      have := h.1
+      simp only [plainChar, Bool.and_eq_true, bne_iff_ne, ne_eq] at this
+      obtain ⟨⟨⟨⟨h1, h2⟩, h3⟩, h4⟩, h5⟩ := this
+      simp [escChar, h1, h2, h3, h4, h5]
+    rw [List.flatMap_cons, hc, ih h.2]; rfl
+
+/-- a validate string without `&`, `'`, `<`, `>`, `"` is what it is after HTML escaping … -/
+theorem htmlEscape_id (s : String) (h : s.toList.all plainChar = true) : htmlEscape s = s := by
+  show String.ofList (s.toList.flatMap escChar) = s
+  rw [flatMap_esc_id _ h, String.ofList_toList]
+
+/-- … and one WITH such a character is not, which changes what the validator accepts: the defect that was C05-F2 (the
+    declared option `light blue` passes the declared tag and fails the escaped one) -/
+theorem escaped_tag_changes_meaning :
+    validatorAccepts "oneof='light blue' navy" "light blue" = true ∧
+    validatorAccepts (htmlEscape "oneof='light blue' navy") "light blue" = false ∧
+    validatorAccepts (htmlEscape "oneof='light blue' navy") "navy" = true := by decide +kernel
+
+end Gleece.Serve
